@@ -857,6 +857,9 @@ def parse_program(text):
         m = re.match(r'^(alloc\d+) \((?:static: .*?, )?size: (\d+), align: (\d+)\) \{(.*)$', l)
         if m:
             aid = m.group(1)
+            ms = re.match(r'^alloc\d+ \(static: (.*?), size:', l)
+            if ms:
+                consts['__static_alloc__' + aid] = ms.group(1)
             if m.group(4).strip() == '}':
                 allocs[aid] = b''
                 i += 1
